@@ -448,6 +448,8 @@ impl Compressor {
                                 break;
                             }
                             CompressRequest::Data(encoder_index, data) => {
+                                #[cfg(pnordahl_monorail_verif)]
+                                crate::verif::point("log.compressor.data");
                                 trace!(lines = data.len(), thread_id = x, "Encoder write");
                                 for v in data.iter() {
                                     encoders[encoder_index].write_all(v)?;
